@@ -9,6 +9,8 @@ TREE = os.environ.get('CGSMILES_TREE', '/repo')
 os.environ.setdefault('PBR_VERSION', '0.0.0')
 # hooks guard (no hooks are needed; declared for the interface)
 os.environ.setdefault('CGSMILES_VERIF', '1')
+# where evidence/ and replays/ are written (scratch runs against mutated trees redirect it)
+OUT = os.environ.get('VERIF_OUT', VERIF)
 DEPS = os.path.join(VERIF, '.deps')
 if os.path.isdir(DEPS) and DEPS not in sys.path:
     sys.path.append(DEPS)
